@@ -199,6 +199,9 @@ def model_part(v, insts, tier, label="Ucs.tla"):
         res.cmd, res.generated, res.distinct, res.wall = res_info["cmd"], res_info["generated"], res_info["distinct"], res_info["wall"]
         v.add_tlc(res, "%s: every interleaving of %d deployments" % (label, len(b)))
         tot["model_states"] += res.distinct
+        if res_info.get("liveness"):
+            tot["liveness_checked_states"] = tot.get("liveness_checked_states", 0) + res_info["liveness"]["distinct"]
+            tot["liveness"] = "PROPERTY Terminates (<>[](Quiet /\\ AllDone)) under SPECIFICATION FairSpec (weak fairness of the steps), no state constraint"
         if res_info["violated"] or res_info["deadlock"]:
             tot.setdefault("model_invariant_violations", []).append({"what": res_info["violated"] or ["Deadlock"], "acts": res_info["acts"], "batch": [json.dumps(x)[:300] for x in b][:1]})
             continue
@@ -238,6 +241,12 @@ def _batch(args):
     g, res = AM.model_check("Ucs", b, {}, INVS, True, workers=1, norm=norm, timeout=900)
     info = {"cmd": res.cmd, "generated": res.generated, "distinct": res.distinct, "wall": res.wall, "violated": list(res.violated),
             "deadlock": any("Deadlock" in e for e in res.errors) and not res.violated, "acts": AM.counterexample_actions(res) if (res.violated or res.errors) else None}
+    if g is not None:
+        # liveness on the same batch, without any constraint: under weak fairness of the steps every behaviour ends with all agents done
+        _, lres = AM.model_check("Ucs", b, {}, [], False, workers=2, timeout=900, spec="FairSpec", properties=["Terminates"])
+        info["liveness"] = {"violated": list(lres.violated) + [e for e in lres.errors if "emporal" in e], "distinct": lres.distinct, "cmd": lres.cmd}
+        if info["liveness"]["violated"] or not lres.distinct:
+            raise MachineryError("Ucs.tla: the liveness property Terminates fails in the model (or TLC failed): %s" % (info["liveness"]["violated"] or lres.out[-300:]))
     if g is None:
         if not info["violated"] and not info["deadlock"]:
             raise MachineryError("Ucs.tla: TLC failed: %s" % (res.errors[:2] or res.out[-400:]))
